@@ -426,6 +426,12 @@ func (e *e2) callDelta(s e2src, call ssa.CallInstruction) cset {
 			}
 		}
 	}
+	// a closure literal invoked on the spot (`go func(){...}()`, `func(){...}()`) that captures the callback
+	if mc, ok := cc.Value.(*ssa.MakeClosure); ok && !cc.IsInvoke() {
+		if pc, ok := e.percall(s, mc, 0); ok {
+			delta = delta.add(pc)
+		}
+	}
 	for j, a := range cc.Args {
 		pc, ok := e.percall(s, a, 0)
 		if !ok {
@@ -435,6 +441,9 @@ func (e *e2) callDelta(s e2src, call ssa.CallInstruction) cset {
 			if isOneOf(cc.Method, e.postObjs) {
 				delta = delta.add(pc)
 				continue
+			}
+			if isRawConnControl(call.(ssa.Instruction)) {
+				continue // accounted on the success edge of the call
 			}
 			impls := e.implementations(cc.Method)
 			if len(impls) == 0 {
@@ -614,11 +623,25 @@ func (e *e2) compute(s e2src) cset {
 			call := in.(ssa.CallInstruction)
 			regs = append(regs, regInfo{call, d, regResultTests(call)})
 		}
+		if isRawConnControl(in) {
+			call := in.(ssa.CallInstruction)
+			regs = append(regs, regInfo{call, "control", regResultTests(call)})
+		}
 	})
 	parkAtCall := map[ssa.Instruction]cset{}
 	parkAtEdge := map[[2]*ssa.BasicBlock]cset{}
 	for _, r := range regs {
-		pd := e.parkDelta(s, r.call, r.dir)
+		var pd cset
+		if r.dir == "control" {
+			// syscall.RawConn.Control(f) invokes f exactly once when (and only when) it returns nil
+			pc, ok := e.percall(s, r.call.Common().Args[0], 0)
+			if !ok {
+				continue
+			}
+			pd = pc
+		} else {
+			pd = e.parkDelta(s, r.call, r.dir)
+		}
 		if len(r.ifs) == 0 {
 			parkAtCall[r.call.(ssa.Instruction)] = pd
 			continue
@@ -763,6 +786,19 @@ func paramOnlyStored(fn *ssa.Function, idx int) bool {
 		default:
 			return false
 		}
+	}
+	return true
+}
+
+// isRawConnControl: invoke of syscall.RawConn.Control.
+func isRawConnControl(in ssa.Instruction) bool {
+	call, ok := in.(ssa.CallInstruction)
+	if !ok || !call.Common().IsInvoke() {
+		return false
+	}
+	m := call.Common().Method
+	if m.Name() != "Control" || m.Pkg() == nil || m.Pkg().Path() != "syscall" {
+		return false
 	}
 	return true
 }
